@@ -109,7 +109,7 @@ int kalign_essential_input_check(struct msa *msa, int exit_on_error)
                                 }
                         }
                         for(int i = msa->numseq; i < msa->alloc_numseq;i++){
-                                 tmp[i] = NULL;
+                                 tmp[i] = msa->sequences[i];
                         }
 
                         MFREE(msa->sequences);
